@@ -227,6 +227,8 @@ def same_value(expr: Any, text: str, mode: str) -> tuple[str, str]:
     try:
         tree = (parse_code if mode == "code" else parse_latex)(text, lex)
     except Exception as exc:  # pylint: disable=broad-except
+        if type(exc).__name__ == "ForeignSymbol":
+            return "mismatch", f"the formula on the page mentions a symbol the module's own attribute does not contain: {exc}"
         return "unparsed", f"{type(exc).__name__}: {exc}"
     sym = interp.SymEval(lex.token_of)
     agree = 0
